@@ -22,7 +22,7 @@ RULE = ("case = (input type, array pair incl. empty sides, subset of global metr
         "metamorphic: same foregrounds with a different division into instances give identical global values; non-trivial = at least "
         "one global metric requested and (an empty side or >= 2 instances on a side); semantic maps with 255/256/257+ isolated components")
 ASSUMPTIONS = [
-    "the metric applied to the binarised arrays is taken from the implementation's own Metric.m call (its equality with the definitions is C06/C07)",
+    "for ASSD / clDSC the metric applied to the binarised arrays is taken from the implementation's own Metric.m call (its equality with the definitions is C06/C07); for DSC / IOU / RVD the reported value is ALSO compared, exactly, with the set formula of the four foreground counts of the original arrays (the right-hand side of C13_global_dice_iou_rvd_are_foreground_formulas)",
     "clDSC global metric only on 2-D/3-D inputs (the implementation asserts ndim in {2,3})",
 ]
 TRUSTED = ["numpy/scipy/skimage C code (modelled, not verified)"]
@@ -61,6 +61,20 @@ def expected(table, m, pred, ref):
     if re_:
         return ("edge", table[m][2])
     return ("metric", direct_metric(m, ref, pred))
+
+
+def count_formula(m, pred, ref):
+    """right-hand side of C13_global_dice_iou_rvd_are_foreground_formulas, from the four foreground counts of the ORIGINAL arrays
+    (one IEEE division, as in the model's rnd): independent of the implementation's Metric.m"""
+    P, R = (pred != 0), (ref != 0)
+    n_p, n_r, n_i, n_u = int(P.sum()), int(R.sum()), int((P & R).sum()), int((P | R).sum())
+    if m == "DSC":
+        return 0.0 if n_r + n_p == 0 else (2 * n_i) / (n_r + n_p)
+    if m == "IOU":
+        return 0.0 if n_u == 0 else n_i / n_u
+    if m == "RVD" and n_r != 0:
+        return (n_p - n_r) / n_r
+    return None
 
 
 def same(a, b):
@@ -175,6 +189,9 @@ def run(ctx):
             else:
                 if v[0] != "ok" or not same(got, v[1]):
                     bad.append(f"global_bin_{key}={got} but Metric.{m}(binarised) = {v}")
+                cf = count_formula(m, pred, ref)
+                if cf is not None and not same(got, cf):
+                    bad.append(f"global_bin_{key}={got} but the set formula of the foreground counts gives {cf}")
             pe, re_ = not pred.any(), not ref.any()
             mv = [0, fval(v[1])] if (kind == "metric" and v[0] == "ok") else [1, 1]
             model_in.append([impl.enc_handler(table, 1), impl.METRICS.index(m), pe, re_, mv])
